@@ -631,6 +631,7 @@ def run(ck):
     ck.run_rule("C03.R8", "no early commitment to an exported binding", 2, rule_R8)
     ck.run_rule("C03.R9", "symbol tables are read by duplicate guards, lazily, or finally", 8, rule_R9)
     ck.run_rule("C02.R7w", "unused definitions are evaluated too (their errors do not depend on use order)", 1, c02.rule_closing_wait)
+    ck.run_rule("G11.res", "operand encoders' results that may still be unevaluated (branch offsets, immediates) are only combined with + - * or forced with wait()", 2, escape.rule_G11_results)
     ck.run_rule("G12", "definition chains of any length: lazily evaluated values do not force their operands from inside their own thunks", 6, escape.rule_G12)
     from . import c11
     ck.run_rule("C11.R5", "'.extern all' exports what is defined before AND after it (a definition may stand on either side)", 4, c11.rule_R5)
